@@ -374,6 +374,23 @@ where
     }
 }
 
+/// Read-only observation points for runtime monitors. Compiled only with the
+/// `verif-hooks` feature.
+#[cfg(feature = "verif-hooks")]
+impl<B, N, P, S> HtlcManager<B, N, P, S>
+where
+    B: BlockProvider,
+    N: NotificationService,
+    P: PaymentProvider,
+    S: Datastore,
+{
+    /// Number of payments currently tracked, or `None` if the payments table
+    /// is locked right now.
+    pub fn verif_tracked_payments(&self) -> Option<usize> {
+        self.payments.try_lock().ok().map(|payments| payments.len())
+    }
+}
+
 /// The default response is continue, meaning the htlc is not modified by this
 /// plugin.
 fn default_response(req: &HtlcAcceptedRequest) -> HtlcAcceptedResponse {
